@@ -220,10 +220,14 @@ def r112(chk, m):
     from .c01 import module_env
     from . import c04
     tokmod = m.module('plasTeX.Tokenizer')
-    env = module_env(m, tokmod, ['VERBATIM_CATEGORIES'])
-    v = env.get('VERBATIM_CATEGORIES')
-    ok = isinstance(v, list) and len(v) == 16 and all(x == '' for i, x in enumerate(v) if i != 11) and isinstance(v[11], M._StringLetters)
-    chk.verdict(R, 'VERBATIM_CATEGORIES', ok, 'VERBATIM_CATEGORIES must be empty everywhere except LETTER: %r' % (v,), chk.where(tokmod))
+    # the table as the Tokenizer module sees it (defined there or imported from wherever it lives)
+    it0 = A.Interp(model=m, scope=tokmod, exc_edges=False, heap=True)
+    v = it0.ev(ast.Name(id='VERBATIM_CATEGORIES', ctx=ast.Load()), A.State({}))
+    if not isinstance(v, list):
+        chk.undecided(R, 'VERBATIM_CATEGORIES', 'the value of VERBATIM_CATEGORIES is not determined', chk.where(tokmod))
+    else:
+        ok = len(v) == 16 and all(x == '' for i, x in enumerate(v) if i != 11) and isinstance(v[11], M._StringLetters)
+        chk.verdict(R, 'VERBATIM_CATEGORIES', ok, 'VERBATIM_CATEGORIES must be empty everywhere except LETTER: %r' % (v,), chk.where(tokmod))
     sv = m.func('plasTeX.Context', 'Context.setVerbatimCatcodes')
     chk.analysed(sv)
     res = []
